@@ -288,6 +288,9 @@ def enum_specs(draw, prof=None):
             if a != b and ls[a] > 1:
                 ls[a] -= 1
                 ls[b] += 1
+        if draw(st.integers(0, 2)) == 0:
+            # equally spaced run starts with the last (or first) run longer than the others
+            ls[-1 if draw(st.booleans()) else 0] += draw(st.integers(1, 3))
         g = draw(st.sampled_from([1, 1, 2, 5]))
         cand, cur = [], (0 if lo <= 0 else lo)
         cur = draw(st.sampled_from([cur, lo, max(lo, -20)]))
@@ -352,6 +355,9 @@ def enum_specs(draw, prof=None):
             cut = starts[draw(st.integers(0, len(starts) - 1))]
         else:                       # a structured layout replaced the run structure: rotate at any position
             cut = draw(st.integers(0, n - 1))
+        if values[0] < 0 and 0 in values and draw(st.booleans()):
+            # the declaration starts at zero (the first variant can then be implicit) and continues below it
+            cut = values.index(0)
         order = list(range(cut, n)) + list(range(0, cut))
     elif small:
         order = list(draw(st.permutations(list(range(n)))))
@@ -370,10 +376,14 @@ def enum_specs(draw, prof=None):
 
     # identifiers
     if small:
-        style = draw(st.sampled_from(["pool", "pool", "letters", "vnum"]))
+        style = draw(st.sampled_from(["pool", "pool", "letters", "vnum", "pool", "vpad_long"]))
     else:
-        style = "vnum"
-    if style == "pool":
+        style = draw(st.sampled_from(["vnum", "vnum", "vpad", "vpad_long"]))
+    if style == "vpad":
+        idents = ["V%0*d" % (len(str(n - 1)), i) for i in range(n)]        # all identifiers equally long
+    elif style == "vpad_long":
+        idents = ["Variant_%05d_x" % i for i in range(n)]
+    elif style == "pool":
         idents = draw(st.lists(st.sampled_from(IDENT_POOL), min_size=n, max_size=n, unique=True))
     elif style == "letters":
         idents = [chr(ord("A") + i) for i in range(n)]
